@@ -679,6 +679,13 @@ def step (d : DS) (line : String) : DS × String :=
       let (d, q) := progress d r q
       (setReq d r q, "ok")
     | none => (d, "bad-op")
+  | ["amb"] =>
+    -- the ambient owner after the steps so far: the last started request's root until its stream ended (`Owner::unset`)
+    -- or it died; every poll in between restored what it found (`C20_with_restores`), "none" included
+    let t := match useContext d.world d.st.mem.ctx d.st.amb with
+      | some e => s!"{e.val / 1000}.{e.val % 1000}"
+      | none => "-"
+    (d, s!"ok o={t}")
   | ["poll", i] =>
     match i.toNat? with
     | some _ => (d, "ok")
